@@ -110,8 +110,10 @@ class Run:
         self.budget = budget
         self.keys = keys
         self.cache = MemoryCache(budget / MB)
+        self.budget_misread = None
         if self.cache.memory_cache_bytes != budget:
-            raise HarnessError("budget not representable: %r" % self.cache.memory_cache_bytes)
+            # (budget / MB is exact in binary floating point for these budgets: the cache did not take the configured size)
+            self.budget_misread = self.cache.memory_cache_bytes
         self.model = Model(budget)
         self.tick = 0
         self.held = {}  # key index -> strongly held value objects (harness side)
@@ -167,6 +169,8 @@ class Run:
     # -- one transition -----------------------------------------------------------------------------
     def step(self, op):
         """Apply op to cache and model; return None or (clause, description)."""
+        if self.budget_misread is not None:
+            return ("budget", "configured with memory_cache_mb = %r (%d bytes) the cache works to a budget of %r bytes" % (self.budget / MB, self.budget, self.budget_misread))
         kind = op[0]
         m = self.model
         c = self.cache
